@@ -434,12 +434,11 @@ Proof.
   destruct (_ <? maj) eqn:Hlt.
   - apply N.ltb_lt in Hlt. destruct (_ =? _) eqn:Heq; intros E; inversion E; subst; [|left; reflexivity].
     apply N.eqb_eq in Heq. right; left. split; [reflexivity|]. right. exists maj. auto.
-  - apply N.ltb_ge in Hlt. destruct (sm_mpc _) eqn:Hm.
-    + intros E; inversion E; subst. right; left. split; [reflexivity|]. left. exists maj.
-      rewrite Hm in Hlt. auto.
-    + rewrite <- Hm. destruct (find _ _) as [p|] eqn:Hf; intros E; inversion E; subst; [|left; reflexivity].
+  - apply N.ltb_ge in Hlt. destruct (sm_mpc _) eqn:Hm; try rewrite Hm in Hlt.
+    + intros E; inversion E; subst. right; left. split; [reflexivity|]. left. exists maj. auto.
+    + destruct (find _ _) as [p|] eqn:Hf; intros E; inversion E; subst; [|left; reflexivity].
       right; right. exists p. split; [eapply find_in; exact Hf|]. split; [|reflexivity].
-      exists maj. split; [exact Hmaj|]. split; [rewrite Hm; discriminate|exact Hlt].
+      exists maj. split; [exact Hmaj|]. rewrite Hm. split; [discriminate|exact Hlt].
 Qed.
 
 Lemma check_next_round_cases s s' : check_next_round_precommit_shift s = Ok s' ->
@@ -801,8 +800,8 @@ Proof.
   intros Hw Hin. rewrite total_power_plain by exact Hw.
   rewrite (idx_power_plain pows (nodup_n S) Hw (NoDup_nodup_n S)).
   apply psum_incl; [apply NoDup_sort_n, NoDup_nodup_n|].
-  intros x Hx _. apply in_nodup_n, Hin. apply in_sort_n in Hx. unfold signer_set in Hx.
-  apply in_nodup_n in Hx. exact Hx.
+  intros x Hx _. apply (proj2 (in_nodup_n _ _)), Hin. apply (proj1 (in_sort_n _ _)) in Hx.
+  unfold signer_set in Hx. apply (proj1 (in_nodup_n _ _)) in Hx. exact Hx.
 Qed.
 
 Lemma proof_power_le_total pows pm t p : nowrap pows -> In (t, p) pm ->
@@ -811,7 +810,8 @@ Proof.
   intros Hw Hin. unfold proof_power, proof_idxs.
   rewrite (idx_power_plain pows _ Hw (NoDup_nodup_n _)), total_power_plain by exact Hw.
   apply psum_incl; [apply NoDup_nodup_n|]. intros x Hx _.
-  apply in_sort_n. unfold signer_set. apply in_nodup_n. apply in_nodup_n in Hx.
+  apply (proj2 (in_sort_n _ _)). unfold signer_set. apply (proj2 (in_nodup_n _ _)).
+  apply (proj1 (in_nodup_n _ _)) in Hx.
   unfold signer_list. apply in_flat_map. exists (t, p). split; [exact Hin|exact Hx].
 Qed.
 
@@ -1047,10 +1047,10 @@ Proof.
   match type of Hc with check_voting_precommit_shift ?X = _ => set (s2 := X) in * end.
   assert (F2 : frame_eq s1 s2) by (unfold s2, frame_eq, pos_eq; cbn; repeat split).
   pose proof (cinv_frame _ _ _ _ F2 H1) as H2. destruct (frame_pos _ _ F2) as (P2h&P2r&_).
-  destruct (check_voting_cases _ _ Hc) as [->|[(-> & _)|(p & Hin & _ & ->)]].
+  destruct (check_voting_cases _ _ Hc) as [->|[(-> & _)|(q & Hin & _ & ->)]].
   - left. congruence.
   - right. split; [reflexivity|]. destruct (pos_advance ih ivs s2 H2) as [_ R]. rewrite R. congruence.
-  - exfalso. rewrite (pos_shift ih ivs s2 p H2 Hin) in Hsame. lia.
+  - exfalso. rewrite (pos_shift ih ivs s2 q H2 Hin) in Hsame. lia.
 Qed.
 
 (** ** Small facts stated in Properties/C06Power.v *)
